@@ -41,6 +41,37 @@ def _not_an_init_field(annotation: ast.expr | None, value: ast.expr | None) -> b
     return False
 
 
+def _is_dataclass(c) -> bool:
+    return any((unparse(d.func) if isinstance(d, ast.Call) else unparse(d)).split('.')[-1] == 'dataclass' for d in c.node.decorator_list)
+
+
+def _init_fields(c) -> tuple[list[str], bool]:
+    """(positional parameters of the generated __init__ of dataclass c, in order; False when a base class is not in the
+    analysed sources, so that the fields it contributes are not known).  As dataclasses does: the fields of the dataclass
+    bases first, in reverse MRO order, a field declared again keeps its first position; annotated names that are ClassVar
+    pseudo-fields or field(init=False) are not parameters."""
+    order: list[str] = []
+    init: dict[str, bool] = {}
+    known = True
+    for k in reversed(c.mro()):
+        if any(isinstance(b, str) and b not in ('object', 'ABC', 'Generic', 'Protocol') for b in k.bases):
+            known = False
+        if k is not c and not _is_dataclass(k):
+            continue
+        for name, ann, val in k.fields:
+            pseudo = False
+            if ann is not None:
+                a = ann.value if isinstance(ann, ast.Subscript) else ann
+                pseudo = (isinstance(ann, ast.Constant) and isinstance(ann.value, str) and ann.value.replace('typing.', '').startswith('ClassVar')) \
+                    or (isinstance(a, ast.Name) and a.id == 'ClassVar') or (isinstance(a, ast.Attribute) and a.attr == 'ClassVar')
+            if pseudo:
+                continue
+            if name not in init:
+                order.append(name)
+            init[name] = not _not_an_init_field(ann, val)
+    return [n for n in order if init[n]], known
+
+
 def _norm(e: sp.Expr | None, scale_one: bool, loose_log: bool = False):
     if e is None:
         return None
@@ -85,18 +116,21 @@ def run(ctx: Ctx) -> None:
     # ---- R1
     g = prog.func(NESTED, 'get_mev_generating_for_nested')
     it = analyse(g)
-    for line, msg in it.findings:
-        clash = 'degrees differ' in msg or 'sum of terms of degrees' in msg
+    rets = [n for n in walk_no_nested(g.node) if isinstance(n, ast.Return)]
+    cont = None
+    if rets and isinstance(rets[-1].value, ast.Call) and call_name(rets[-1].value) == 'bioMultSum' and rets[-1].value.args:
+        cont = unparse(rets[-1].value.args[0])
+    for fd in it.findings:
+        line, msg = fd.line, fd.msg
+        # terms of different degrees that are summed (or stored in the list whose sum is G) contradict the property; entries
+        # of different degrees in another local container (a record of a sum and its exponent) do not
+        clash = fd.clash and fd.var in ('', cont)
         ctx.add('C06.R1', 'get_mev_generating_for_nested:typing', False if clash else None, (g.file, line), f'homogeneity typing fails: {msg}' if clash else f'homogeneity typing: statement not in a form the typing understands: {msg}', msg, positive=clash)
     typed = it.ret is not None and it.ret.kind in ('Const', 'Hom', 'LogHom') and (it.ret.kind == 'Const' or it.ret.deg is not None)
     ret_ok = typed and it.ret.kind == 'Hom' and sp.simplify(it.ret.deg - 1) == 0
     ctx.add('C06.R1', 'get_mev_generating_for_nested:return', ret_ok if typed else None, g,
             (f'G is {it.ret}' + ('' if ret_ok else '; a nested-logit generating function is homogeneous of degree 1')) if typed else 'the returned value of get_mev_generating_for_nested is not in a form the typing understands',
             str(it.ret), positive=typed and not ret_ok and it.ret.kind == 'Hom')
-    rets = [n for n in walk_no_nested(g.node) if isinstance(n, ast.Return)]
-    cont = None
-    if rets and isinstance(rets[-1].value, ast.Call) and call_name(rets[-1].value) == 'bioMultSum' and rets[-1].value.args:
-        cont = unparse(rets[-1].value.args[0])
     ctx.need(cont in it.bindings, 'get_mev_generating_for_nested returns bioMultSum(<list it has filled>)')
     kinds = set()
     for b in it.bindings[cont]:
@@ -114,10 +148,11 @@ def run(ctx: Ctx) -> None:
                     detail=f'{v}', positive=True)
         want = ('alone',) if alone else ('nests',)
         okl = classes == want
-        # a loop the rule cannot classify says nothing about how many times the term is appended
-        verdict = True if okl else (None if 'unknown' in classes else False)
+        # a loop the rule cannot classify, or a loop over a local container (how many entries it has is not counted here), says
+        # nothing about how many times the term is appended
+        verdict = True if okl else (None if ('unknown' in classes or 'entries' in classes) else False)
         ctx.add('C06.R1', f'get_mev_generating_for_nested:{"alone" if alone else "nest"}:multiplicity', verdict, (g.file, b.line),
-                f'appended under loops {b.loops}' + ('' if okl else (f'; one term per {"alternative alone" if alone else "nest"} needs exactly one loop over {"the alternatives alone" if alone else "the nests"}'
+                f'appended under loops {it.effective_loops(b.loops)}' + ('' if okl else (f'; one term per {"alternative alone" if alone else "nest"} needs exactly one loop over {"the alternatives alone" if alone else "the nests"}'
                                                                      if verdict is False else ' - loop nest not in the expected form')), detail=str(b.loops), positive=verdict is False)
     if kinds != {'alone', 'nest'}:
         raise AnalysisError('C06.R1: terms for nests and for alternatives alone not both found in get_mev_generating_for_nested')
@@ -189,13 +224,16 @@ def run(ctx: Ctx) -> None:
         c = prog.cls('nests', cname)
         # the positional parameters of the generated __init__: annotated names in order, without ClassVar pseudo-fields and
         # without fields declared field(init=False)
-        names = [x[0] for x in c.fields if not _not_an_init_field(x[1], x[2])]
+        names, bases_known = _init_fields(c)
         ft = c.methods.get('from_tuple')
         ctx.need(ft is not None, f'{cname}.from_tuple')
         p = ft.positional_params()[1]
         star = unparse(ft.body[-1]) == f'return cls(*{p})' and 'classmethod' in ft.decorators()
         ok = names[:2] == ['nest_param', second]
-        special = any('KW_ONLY' in unparse(x[1]) or (x[2] is not None and 'kw_only' in unparse(x[2])) for x in c.fields) or any('kw_only' in d for d in (unparse(d_) for d_ in c.node.decorator_list))
+        all_fields = [x for k in c.mro() for x in k.fields]
+        special = any((x[1] is not None and 'KW_ONLY' in unparse(x[1])) or (x[2] is not None and 'kw_only' in unparse(x[2])) for x in all_fields) \
+            or any('kw_only' in unparse(d_) for k in c.mro() for d_ in k.node.decorator_list) or not bases_known or not _is_dataclass(c) \
+            or any('__init__' in k.methods for k in c.mro())
         # the order of the fields contradicts the legacy tuple only when the tuple is passed positionally (cls(*tuple))
         ctx.add('C06.R3', f'{cname}:fields', ok if (ok or (star and not special)) else None, c,
                 f'fields begin ({", ".join(names[:2])})' + ('' if ok else (f'; the legacy tuple is (nest parameter, {second})' if star and not special else ' - the way the legacy tuple reaches the fields is not in the expected form')),
@@ -228,6 +266,19 @@ super().__init__(choice_set, tuple_of_nests)
             # guarded by `not isinstance(nests, cls)`
             guard = [n for n in walk_no_nested(f.node) if isinstance(n, ast.If) and conv[0] in n.body]
             okc = okc and len(guard) == 1 and unparse(guard[0].test) == f'not isinstance({np_}, {cls})'
+            # nothing else touches the nests: the block holds the conversion (and messages), no other statement assigns the name
+            if okc:
+                from ..core import dotted
+
+                def harmless(st_):
+                    if st_ is conv[0]:
+                        return True
+                    if isinstance(st_, ast.Expr) and isinstance(st_.value, ast.Constant):
+                        return True
+                    return isinstance(st_, ast.Expr) and isinstance(st_.value, ast.Call) and (dotted(st_.value.func) or '').split('.')[0] in ('logger', 'logging', 'warnings') \
+                        and not any(isinstance(x, (ast.NamedExpr, ast.Lambda)) for x in ast.walk(st_))
+                stores = [x for x in walk_no_nested(f.node) if isinstance(x, ast.Name) and x.id == np_ and isinstance(x.ctx, (ast.Store, ast.Del))]
+                okc = all(harmless(st_) for st_ in guard[0].body) and not guard[0].orelse and len(stores) == 1
         ctx.add('C06.R3', f'{name}:conversion', okc, f, f'legacy nests are converted with {cls}(choice_set=list({ut}), tuple_of_nests={np_})' if okc else f'conversion of legacy nests in {name} not in the expected form', unparse(conv[0]) if conv else 'missing')
         # conversion and validity check dominate every loop over nests
         loops = [n for n in walk_no_nested(f.node) if isinstance(n, ast.For) and unparse(iterated(n.iter)) in (np_, f'{np_}.alone')]
